@@ -914,6 +914,9 @@ def project(v, rest):
             if e[0] == "len" and kind == "array":
                 v = K("usize", len(fields))
                 continue
+            if e[0] == "ix" and kind == "array" and len(e) > 1 and isinstance(e[1], int) and 0 <= e[1] < len(fields):
+                v = fields[e[1]]
+                continue
             return ("proj", v, tuple(rest[i:]))
         if h == "model" and len(v) > 2 and v[1] == "array-with" and e[0] == "len":
             return project(v[2], rest[i:])        # element writes do not change the length
